@@ -10,6 +10,7 @@ mod fam_len;
 mod fam_serde;
 mod fam_stream;
 mod json;
+mod replay;
 mod rng;
 mod variants;
 
@@ -61,6 +62,11 @@ fn main() {
         "c03" => fam_gen::run_c03(&mut out, &mut rng, args.thorough, only),
         "c10" => fam_gen::run_c10(&mut out, &mut rng, args.thorough, only),
         "c11" => fam_gen::run_c11(&mut out, &mut rng, args.thorough, only),
+        "replay" => {
+            let bad = replay::run(args.extra.first().expect("replay file"), &mut out);
+            out.flush();
+            std::process::exit(if bad == 0 { 0 } else { 1 });
+        }
         "dispatch" => fam_dispatch::run(&mut out, args.seed),
         "agg" => fam_gen::run_agg(&mut out, &mut rng, args.thorough, only),
         "c02" => fam_dist::run_c02(&mut out, &mut rng, args.thorough, only),
